@@ -1,7 +1,7 @@
 import ApolloModel.Proofs.ParserWhole
 import ApolloModel.Proofs.ParserType10
 import ApolloModel.Proofs.ParserSel9
-import ApolloModel.Proofs.ParserComplete5
+import ApolloModel.Proofs.ParserComplete16
 /-
 C07 — Standalone type and field-set parsing consume the whole input.
 Parser model of C01 with the repaired entry points (`expect_end_of_input`).
@@ -186,25 +186,35 @@ theorem variable_definitions_accept_sound (n : Nat) (s s' : PState) (w : TW s) (
       (sig cs).map astOfV = x.map some ∧ ∃ vs : List Ast.VarDef, vs ≠ [] ∧ x = Ast.tVarDefs vs :=
   (Parse.acc_variableDefinitions n).sound s s' () w he hk h hnd
 
-/-! ### completeness of the `selectionSet` entry point (growth 5): statement, guards, witnesses -/
+/-! ### completeness of the `selectionSet` entry point (growth 5/6) -/
 
-/-- OPEN OBLIGATION (stated, not yet proved): **acceptance is complete** for `parse_selection_set` — every
-    source without lexer error whose significant tokens are an `IsFieldSet` sequence followed by EOF, whose
-    first token is not an ignored one, and whose nesting fits the recursion limit (`depthOk`: each `{ … }`
-    level costs 1, each list/object level inside an argument value costs 1 more) parses without error.
-    The building blocks are proved in the completeness calculus `Parse.Cmp` (ParserComplete1–5): values,
-    arguments, directives (C05 `value_accept_complete`, `arguments_accept_complete`,
-    `directives_accept_complete`), names, punctuators, optional parts (`cmp_optKind`), kind-guarded loops
-    (`cmp_kindWhileLoop`), `withRec` budget (`cmp_withRec`).  Missing: the two `peek_n(2)` decisions in
-    `field` (alias) and `selection` (spread vs inline fragment) and the flag-loop of `selection_set`. -/
-def fieldset_accept_complete_statement (depthOk : Nat → List Ast.Tok → Prop) : Prop :=
-  ∀ (rl : Nat) (src : Parse.Str) (x : List Ast.Tok) (ts : List Tok) (e : Tok),
-    LexClean src → sig (srcToks src) = ts ++ [e] → e.kind = .eof → TokIs ts x → IsFieldSet x → depthOk rl x →
-    (∀ hd tl, srcToks src = hd :: tl → isIgnoredKind hd.kind = false) →
-    (parse .selectionSet none rl src).errors = []
+/-- **Acceptance is complete** for `Parser::parse_selection_set` (no token limit).  Take any non-empty selection
+    list `ss` of the C08 reference grammar (fields with optional alias / arguments / directives / nested selection
+    set, fragment spreads with a name other than `on`, inline fragments with a non-empty selection set) that FITS
+    the recursion limit: `1 ≤ rl` and `fitSels ss (rl − 1)` — every `{ … }` level costs one, the top level
+    (braced or not) costs one, list/object nesting inside argument values costs its depth.  If the source has no
+    lexer error and its significant tokens are `{ ss }` or, brace-less, `ss`, followed by EOF — with ARBITRARY
+    ignored tokens (whitespace, commas, comments) between and after the tokens — then the parse reports NO error.
+    Guard: in the braced form the source must START with the `{` (`field_set` tests the raw current token, an
+    ignored token in front makes it take the brace-less branch and reject); the brace-less form may be preceded by
+    ignored tokens.  With `fieldset_accept_sound`: for this entry point acceptance = grammar (within the budget). -/
+theorem fieldset_accept_complete (rl : Nat) (src : Parse.Str) (ss : Ast.Sels) (ts : List Tok) (e : Tok)
+    (hclean : LexClean src) (hsig : sig (srcToks src) = ts ++ [e]) (he : e.kind = .eof)
+    (hne : ss ≠ Ast.Sels.nil) (hb : 1 ≤ rl) (hfit : fitSels ss (rl - 1))
+    (hx : (TokIs ts (.p .lCurly :: Ast.tSels ss ++ [.p .rCurly]) ∧
+            (∀ hd tl, srcToks src = hd :: tl → isIgnoredKind hd.kind = false)) ∨ TokIs ts (Ast.tSels ss)) :
+    (parse .selectionSet none rl src).errors = [] :=
+  Parse.parseFieldSet_complete_full rl src ss ts e hclean hsig he hne hb hfit hx
 
--- the guards of that statement are necessary (kernel-evaluated on the model):
--- (1) a leading ignored token before the brace is REJECTED (`field_set` peeks `{` on the raw current token)
+/-- every sentence accepted by the completeness theorem is an `IsFieldSet` sentence of the soundness theorem -/
+theorem fieldset_complete_language_is_sound_language (ss : Ast.Sels) (hne : ss ≠ Ast.Sels.nil) :
+    IsFieldSet (.p .lCurly :: Ast.tSels ss ++ [.p .rCurly]) ∧ IsFieldSet (Ast.tSels ss) :=
+  ⟨⟨ss, hne, Or.inl rfl⟩, ⟨ss, hne, Or.inr rfl⟩⟩
+
+-- the guards of that theorem are necessary (kernel-evaluated on the model):
+-- (1) a leading ignored token before the brace is REJECTED (`field_set` peeks `{` on the raw current token),
+--     before a brace-less field set it is accepted
+example : (parse .selectionSet none 500 " a".toList).errors = [] := by decide +kernel
 example : (parse .selectionSet none 500 "{a}".toList).errors = [] := by decide +kernel
 example : (parse .selectionSet none 500 " {a}".toList).errors ≠ [] := by decide +kernel
 -- (2) the budget: each brace level costs one, a brace-less field costs one, list nesting in arguments adds
